@@ -207,12 +207,13 @@ func (s *Store) NewReadOnly(queryVersion uint64) (lib.StoreI, lib.ErrorI) {
 		stateReader = NewTxn(hssReader, nil, historicStatePrefix, false, false, true)
 	}
 	// return the store object
+	// NOTE: Root() persists the tree under the stateCommitIDPrefix, so (historical) proofs must read it from there
 	return &Store{
 		version:    queryVersion,
 		log:        s.log,
 		db:         s.db,
 		ss:         stateReader,
-		sc:         NewDefaultSMT(NewTxn(hssReader, nil, stateCommitmentPrefix, false, false, true)),
+		sc:         NewDefaultSMT(NewTxn(hssReader, nil, stateCommitIDPrefix, false, false, true)),
 		Indexer:    &Indexer{NewTxn(hssReader, nil, indexerPrefix, false, false, false), s.config},
 		metrics:    s.metrics,
 		mu:         &sync.Mutex{},
